@@ -50,6 +50,14 @@ pub struct PolicyM {
 }
 
 impl PolicyM {
+    /// levels of policies below and including this one
+    pub fn depth(&self) -> usize {
+        1 + self.policies.iter().map(|p| p.depth()).max().unwrap_or(0)
+    }
+    /// `a` is written as a single apply-address here or below
+    pub fn reserves(&self, a: Ipv4Addr) -> bool {
+        self.apply_address.contains(&a) || self.policies.iter().any(|p| p.reserves(a))
+    }
     fn has_conditions(&self) -> bool {
         self.match_subnet.is_some() || self.match_chaddr.is_some()
     }
@@ -743,6 +751,9 @@ pub fn generate(seed: u64, opts: &GenOpts) -> PlanA {
     if opts.shape == "cp-history" || opts.shape == "images" {
         return generate_small(seed, opts.shape == "images");
     }
+    if opts.shape == "growth" {
+        return generate_growth(seed, opts.thorough);
+    }
     if opts.shape == "restart-pair" {
         let mut p = generate(seed, &GenOpts { shape: "pairbase", thorough: opts.thorough });
         p.shape = "restart-pair".into();
@@ -1055,6 +1066,88 @@ pub fn generate(seed: u64, opts: &GenOpts) -> PlanA {
 
 /// The drain shape (C02 "conversely" clause): fresh clients keep arriving
 /// until the pool is exhausted; then exactly the documented set was leased.
+/// C10: one or two clients renew again and again at instants chosen relative to the lease
+/// they are predicted to hold (a fraction of it, its last second, just after it ran out,
+/// long after), so that lease times grow to the ceiling, sit there, and collapse.
+pub fn generate_growth(seed: u64, thorough: bool) -> PlanA {
+    let mut p = generate(seed, &GenOpts { shape: "rhythm", thorough });
+    p.shape = "growth".into();
+    let mut r = Rng::new(seed, "plan-a-growth");
+    let nclients = p.clients.len().min(if r.chance(0.7) { 1 } else { 2 });
+    let mut steps: Vec<Step> = vec![];
+    let mut t = 1000u64;
+    let mut xid = 0x2000_0000u32 | ((seed as u32) << 8 & 0x0fff_ff00);
+    let mut pred: Vec<u64> = vec![300; nclients];
+    let mut mk = |client: usize, lan: usize, mtype: u8, ciaddr: AddrRef, requested: AddrRef, r: &mut Rng| {
+        xid = xid.wrapping_add(1);
+        StepKind::Dhcp(MsgSpec {
+            client,
+            lan,
+            mtype: Some(mtype),
+            ciaddr,
+            requested,
+            server_id: None,
+            flags: if r.chance(0.3) { 0x8000 } else { 0 },
+            giaddr: None,
+            with_client_id: true,
+            with_hostname: true,
+            param_list: vec![1, 3, 6, 51, 54],
+            extra: vec![],
+            xid,
+            must_answer: false,
+            split_opts: false,
+        })
+    };
+    for c in 0..nclients {
+        let lan = p.clients[c].lan;
+        steps.push(Step { at_ms: t, kind: mk(c, lan, 1, AddrRef::None, AddrRef::None, &mut r) });
+        t += 200;
+        steps.push(Step { at_ms: t, kind: mk(c, lan, 3, AddrRef::None, AddrRef::LastOffered, &mut r) });
+        t += 200;
+    }
+    let n = r.range(8, if thorough { 40 } else { 26 });
+    for _ in 0..n {
+        let c = r.below(nclients as u64) as usize;
+        let lan = p.clients[c].lan;
+        let lease = pred[c];
+        let gap_s: u64 = match r.below(14) {
+            0..=2 => lease / 2,
+            3 => lease * 7 / 8,
+            4..=5 => lease * 99 / 100,
+            6 => lease.saturating_sub(1),
+            7 => lease,
+            8 => lease + 1,
+            9 => lease * 3 / 2,
+            10 => lease * 2 + r.range(0, 2),
+            11 => r.range(1, 20),
+            12 => lease / 3,
+            _ => r.range(1, lease.max(2) * 2),
+        }
+        .max(1);
+        t += gap_s * 1000;
+        /* what the server is expected to do (only steers the next gap; the oracle does not use it) */
+        pred[c] = if gap_s <= lease { (3 * gap_s).clamp(300, 86400) } else { (2 * lease).clamp(300, 86400) };
+        let kind = match r.below(10) {
+            0..=4 => mk(c, lan, 3, AddrRef::LastAcked, AddrRef::None, &mut r),
+            5..=6 => mk(c, lan, 3, AddrRef::None, AddrRef::LastAcked, &mut r),
+            7..=8 => mk(c, lan, 1, AddrRef::None, AddrRef::None, &mut r),
+            _ => mk(c, lan, 1, AddrRef::None, AddrRef::LastAcked, &mut r),
+        };
+        steps.push(Step { at_ms: t, kind });
+        if r.chance(0.06) {
+            t += 50;
+            steps.push(Step { at_ms: t, kind: StepKind::Restart { cfg: 0 } });
+        }
+        if r.chance(0.04) {
+            t += 50;
+            steps.push(Step { at_ms: t, kind: StepKind::ClockJump(*r.pick(&[-2i64, 3, 100, 4000])) });
+        }
+    }
+    p.steps = steps;
+    p.pair_split = None;
+    p
+}
+
 pub fn generate_drain(seed: u64, large: bool) -> PlanA {
     let mut r = Rng::new(seed, "plan-a-drain");
     let lan = gen_lan(&mut r, 0, large);
